@@ -61,7 +61,7 @@ CHECKS = {
             "params": {"quick": {"L": 2, "PFX": 3}, "thorough": {"L": 4, "PFX": 3}},
             "max_paths": {"quick": 60000, "thorough": 600000},
             "timeout": {"quick": "10m", "thorough": "60m"},
-            "covers": {"VerifC14Determinism": ["determined"], "VerifC14Reopen": ["created", "reopened"], "VerifC14Escape": ["accepted", "refused"]},
+            "covers": {"VerifC14Determinism": ["determined"], "VerifC14Reopen": ["created", "reopened", "open-failed"], "VerifC14Escape": ["accepted", "refused"]},
         }, {
             "pkg": ODB, "funcs": ["VerifC14Injective"],
             "params": {"quick": {"L": 1}, "thorough": {"L": 2}},
@@ -83,14 +83,21 @@ CHECKS = {
             "max_paths": {"quick": 60000, "thorough": 600000},
             "timeout": {"quick": "10m", "thorough": "60m"},
             "covers": {"VerifC02Heal": ["announcement-delivered", "announcement-lost", "restart", "healed"]},
+        }, {
+            "pkg": ODB, "funcs": ["VerifSysHeal"],
+            "params": {"quick": {"STEPS": 3, "PEERS": 2, "FAULTS": 2}, "thorough": {"STEPS": 3, "PEERS": 3, "FAULTS": 3}},
+            "max_paths": {"quick": 60000, "thorough": 800000},
+            "timeout": {"quick": "10m", "thorough": "90m"},
+            "covers": {"VerifSysHeal": ["write", "cut", "heal", "restart", "restart-wiped", "healed"]},
         }],
         "assumptions": [
             "closed system of two replicas inside one interpreter, each a real BaseStore with replication enabled over stub pubsub / direct channel and its own block store (blocks of the connected peer are fetchable)",
             "fault plan (symbolic): STEPS steps, each a write on a or b whose announcement (the payload the real handleEventWrite published on the topic) is delivered to the other side or lost, or a restart of a (Close, fresh store over the same cache and blocks, real Load)",
             "final phase: writes stop; each side observes the other joining its topic (EventPubSubJoin on the watcher channel); the payload each real exchangeHeads sends on the direct channel is decoded and handed to the other store's Sync, as baseorbitdb's handler does; run to quiescence",
             "oracle: both replicas hold every acknowledged write and list identical ordered logs",
+            "system harness (VerifSysHeal): PEERS real orbitDB INSTANCES (newOrbitDB, Create/Open, createStore, monitorDirectChannel, handleEventExchangeHeads, the stores' storeListener / pubSubChanListener / exchangeHeads) wired by the real code over a simulated network (pubsub with join/leave notifications and fan-out, pairwise direct channel emitting on the receiver's bus, link cuts); fault plan of STEPS steps: write on any peer (each publication towards each subscriber delivered / lost / duplicated), cut or heal a link, restart a peer over its directory, or restart a peer that has not written with its storage lost (in-memory cache); final phase: every link re-established; blocks of a connected peer are fetchable",
         ],
-        "outside": ["more than two replicas", "duplicated / reordered announcements (delivery is idempotent and order-insensitive by C01)", "liveness of real pubsub / bitswap: the claim is 'given the join notifications and fetchable blocks, one exchange suffices'", "composition to >2 replicas is a paper argument"],
+        "outside": ["more than PEERS replicas", "reordered announcements (delivery is order-insensitive by C01)", "liveness of real pubsub / bitswap: the claim is 'given the join notifications and fetchable blocks, one exchange suffices'", "composition to >2 replicas is a paper argument"],
     },
     "C03": {
         "groups": [{
@@ -98,12 +105,15 @@ CHECKS = {
             "covers": {"VerifC03Forged": ["as-head", "as-ancestor", "as-foreign-ref", "id-swap"], "VerifC03LocalWrite": ["allowed", "denied"]},
         }, {"pkg": ACI, "funcs": ["VerifC03CanAppend"], "covers": {"VerifC03CanAppend": ["decided"]}},
            {"pkg": ACS, "funcs": ["VerifC03CanAppend"], "covers": {"VerifC03CanAppend": ["decided"]}},
-           {"pkg": ACO, "funcs": ["VerifC03CanAppend"], "covers": {"VerifC03CanAppend": ["decided"]}}],
+           {"pkg": ACO, "funcs": ["VerifC03CanAppend"], "covers": {"VerifC03CanAppend": ["decided"]}},
+           {"pkg": ODB, "funcs": ["VerifC03Instance"],
+            "covers": {"VerifC03Instance": ["created", "via-sync", "via-direct-channel", "via-topic", "delivered", "local-write-refused"]}}],
         "assumptions": [
             "Dolev-Yao attacker with perfect symbolic cryptography: verify(pub, m, s) <=> s = sign(pub, m); the attacker can sign only with its own key, copy any public field (ids, identity blocks, keys, signatures of honest entries) and re-address entries",
             "forged author fields: identity block (own / own with the writer's id / copy of the writer's) x key (own / writer's) x signature (own over the content / copied from an honest writer entry / garbage) x clock id; delivered as an announced head or as the ancestor of a colluding writer's entry to a replica with an explicit write list, through the real Sync, replicator, Join, Entry.Verify, ToHashable and the REAL OrbitDBIdentityProvider.VerifyIdentity",
             "local write by an identity outside / inside the list, under the wildcard, and with the default (creator-only) list",
             "unit harnesses of the three controllers' CanAppend with a symbolic write list (<= 2 symbolic ids, optional wildcard at any position) and a symbolic author id",
+            "instance harness (VerifC03Instance): one real orbitDB instance creates a permissive and a restricted database (ipfs controller with manifest / manifest-less simple controller, either creation order); the write list each store enforces is the one resolved by createStore -> acutils.Resolve from the manifest; a non-writer's entry reaches the instance by manual sync, direct-channel head exchange (monitorDirectChannel) or topic announcement; the non-writer's local write on its own replica must fail",
         ],
         "outside": ["real secp256k1", "identity providers other than orbitdb", "routes load-from-cache and snapshot (they reach the same Join)"],
     },
@@ -154,14 +164,25 @@ CHECKS = {
             "max_paths": {"quick": 60000, "thorough": 800000},
             "timeout": {"quick": "10m", "thorough": "90m"},
             "covers": {"VerifC09Isolation": ["write-on-a", "replicate-on-a", "load-on-a", "interleaved-writes"]},
+        }, {
+            "pkg": ODB, "funcs": ["VerifSysTwoDBs"],
+            "params": {"quick": {"N": 2}, "thorough": {"N": 3}},
+            "covers": {"VerifSysTwoDBs": ["healed", "both-write"]},
+        }, {
+            "pkg": ODB, "funcs": ["VerifSysHeal"],
+            "params": {"quick": {"STEPS": 2, "PEERS": 2, "FAULTS": 2}, "thorough": {"STEPS": 3, "PEERS": 2, "FAULTS": 3}},
+            "max_paths": {"quick": 60000, "thorough": 800000},
+            "timeout": {"quick": "10m", "thorough": "60m"},
+            "covers": {"VerifSysHeal": ["write", "healed"]},
         }],
         "assumptions": [
             "two databases opened by one process: two real BaseStores initialised by InitBaseStore on ONE shared event bus, one pubsub (topics per address, each with a peer so that publications are not suppressed) and one direct channel; replication enabled",
             "a sequence of STEPS actions on database A (local write with symbolic payload; replication of a head written by a remote process; load), run to quiescence after each",
             "oracle: nothing published on B's topic or sent on the direct channel; B's log, progress and maximum unchanged; every store event observed on the bus carries A's address",
             "then a write to B followed by a write to A under every thread schedule with at most P preemptions (switch or stall) at visible operations; every message published on a topic must name that topic's database and carry only its heads",
+            "instance level (VerifSysTwoDBs, VerifSysHeal): two real orbitDB instances hold the same two databases (event log + key-value); both are written behind a partition, the head exchanges of both travel back to back over one direct channel through the real monitorDirectChannel / handleEventExchangeHeads routing and replicate concurrently on the shared bus; each database ends with exactly its own entries, its own replication status and events naming it; every wire message names the database whose heads it carries; an idle database stays untouched under a fault plan on its sibling",
         ],
-        "outside": ["more than two databases / different store types (the listeners are in BaseStore, common to all types)", "schedules other than run-to-block FIFO", "the instance-level direct-channel handler of baseorbitdb (routes by the address in the message)"],
+        "outside": ["more than two databases / different store types (the listeners are in BaseStore, common to all types)", "schedules other than run-to-block FIFO in the instance-level harnesses"],
     },
     "C05": {
         "groups": [{
@@ -213,22 +234,22 @@ CHECKS = {
             "params": {"quick": {"STEPS": 3}, "thorough": {"STEPS": 4}},
             "max_paths": {"quick": 60000, "thorough": 600000},
             "timeout": {"quick": "10m", "thorough": "60m"},
-            "covers": {"VerifC01KV": ["converged"]},
+            "covers": {"VerifC01KV": ["converged", "partial-load"]},
         }, {
             "pkg": EL, "funcs": ["VerifC01Log"],
             "params": {"quick": {"STEPS": 3}, "thorough": {"STEPS": 5}},
             "max_paths": {"quick": 60000, "thorough": 600000},
             "timeout": {"quick": "10m", "thorough": "60m"},
-            "covers": {"VerifC01Log": ["converged"]},
+            "covers": {"VerifC01Log": ["converged", "partial-load"]},
         }, {
             "pkg": DOC, "funcs": ["VerifC01Docs"],
             "params": {"quick": {"STEPS": 2}, "thorough": {"STEPS": 3}},
             "max_paths": {"quick": 60000, "thorough": 600000},
             "timeout": {"quick": "10m", "thorough": "60m"},
-            "covers": {"VerifC01Docs": ["converged"]},
+            "covers": {"VerifC01Docs": ["converged", "partial-load"]},
         }],
         "assumptions": [
-            "two writers (real stores built by InitBaseStore over a shared block store) produce a history of STEPS steps, each a local write with symbolic key/value or a real head exchange (Sync -> replicator -> ipfs-log fetcher -> Join) in either direction, in any order; then both exchange heads and a fresh replica receives everything by one of three routes: manual sync in one batch, load from the writer's disk (cache heads + blocks, real Load), or a snapshot saved by the writer (real SaveSnapshot / LoadFromSnapshot)",
+            "two writers (real stores built by InitBaseStore over a shared block store) produce a history of STEPS steps, each a local write with symbolic key/value or a real head exchange (Sync -> replicator -> ipfs-log fetcher -> Join) in either direction, in any order; then both exchange heads and a fresh replica receives everything by one of five routes: manual sync in one batch, load from the writer's disk (cache heads + blocks, real Load), a snapshot saved by the writer (real SaveSnapshot / LoadFromSnapshot), the two writers' branches in separate batches followed by a restart from its own disk, or a PARTIAL load from disk (Load with a limit k, k any value below the log length) completed by the heads a lagging peer would announce (entries below the loaded window, so the log's heads do not move)",
             "the real ipfs-log Append/Join/traverse/sorting run in the interpreter; IPFS is a content-addressed block store stub with perfect hashing; identities use perfect symbolic signatures",
             "oracle: identical ordered hash lists and identical views on all three replicas; the view equals the replay of the replica's own log",
             "distinct entries never share (Lamport time, writer key): holds by construction (each identity writes through one live store)",
@@ -299,13 +320,21 @@ CHECKS = {
         }, {
             "pkg": BS, "funcs": ["VerifC12Heads"],
             "params": {"quick": {"H": 1}, "thorough": {"H": 2}},
-            "covers": {"VerifC12Heads": ["malformed-handled", "valid-sent"]},
+            "covers": {"VerifC12Heads": ["malformed-handled", "burst", "valid-sent"]},
+        }, {
+            "pkg": ODB, "funcs": ["VerifSysMalformed"],
+            "params": {"quick": {"H": 1}, "thorough": {"H": 2}},
+            "max_paths": {"quick": 60000, "thorough": 400000},
+            "timeout": {"quick": "10m", "thorough": "60m"},
+            "covers": {"VerifSysMalformed": ["raw-bytes", "ill-typed", "malformed-heads", "misrouted-valid-head", "via-direct-channel", "via-topic-A", "via-topic-B", "burst", "valid-after"]},
         }],
         "assumptions": [
             "raw direct-channel stream = ANY byte string of length 0..B (every byte symbolic): every varint incl. 10-byte overflowing ones and every declared length; real bufio.Reader, binary.ReadUvarint, io.ReadFull are interpreted",
             "declared lengths above 16 are explored up to the size check and the allocation only (recorded cut)",
             "head-exchange message: json.Unmarshal over-approximated by ANY value of the message type: 1..H heads, each null or an entry with identity (absent / without signatures / complete, naming a writer), clock (absent / any 64-bit time), hash, next, key+sig independently absent or present; delivered on the store's topic of a replica built by the real InitBaseStore; afterwards a valid head (real ipfs-log Append by a second device of the writer) must still replicate through the real replicator, fetcher, Join",
             "stub IO mirrors the nil-dereferences of the real CBOR IO (ToJsonableLamportClock / ToJsonableIdentitySignature), confirmed natively against the real IO",
+            "pacing: the valid message arrives after the malformed one was handled, or in the same burst right behind / right before it (both waiting in the channel buffer)",
+            "instance level (VerifSysMalformed): a real orbitDB instance with two databases receives on its direct channel (real monitorDirectChannel -> getStore -> handleEventExchangeHeads) or on either database's topic a payload that is raw bytes, ill-typed JSON, a message addressed to database A / B / the empty address / an unknown address / 2 symbolic bytes with malformed heads, or a VALID head of A in a message naming B; alone or in one burst with an honest message; afterwards a head exchange on join and an announcement must still be handled",
         ],
         "outside": ["panics inside encoding/json, libp2p or cbor themselves", "byte-level JSON mutations (covered through their decode result only)"],
     },
@@ -321,7 +350,7 @@ CHECKS = {
             "params": {"quick": {"STEPS": 3}, "thorough": {"STEPS": 4}},
             "max_paths": {"quick": 60000, "thorough": 600000},
             "timeout": {"quick": "10m", "thorough": "60m"},
-            "covers": {"VerifC01KV": ["converged"]},
+            "covers": {"VerifC01KV": ["converged", "partial-load"]},
         }],
         "assumptions": [
             "listing of N operations in log order with symbolic 1-byte keys (any collision pattern), op kind PUT/DEL, value nil / empty / 1 symbolic byte",
@@ -375,6 +404,10 @@ CHECKS = {
             "params": {"quick": {"STEPS": 3}, "thorough": {"STEPS": 5}},
             "max_paths": {"quick": 20000, "thorough": 200000},
             "covers": {"VerifC19Step": ["max", "status"], "VerifC19Rest": ["update", "no-update"], "VerifC19History": ["history", "reloaded"]},
+        }, {
+            "pkg": ODB, "funcs": ["VerifSysTwoDBs"],
+            "params": {"quick": {"N": 2}, "thorough": {"N": 3}},
+            "covers": {"VerifSysTwoDBs": ["healed"]},
         }],
         "assumptions": [
             "inductive step: pre-state is ANY (progress, max, log length) with 0 <= progress <= max < 2^62, 0 <= length < 2^62; argument 0 <= x < 2^62",
